@@ -86,7 +86,7 @@ package mempool
 
 // Structural pool invariants needed by removal and insertion.
 //@ spec wfItems(mp *Pool) bool = forall(j, 0, len(mp.verifiedTxes), mp.verifiedTxes[j].txn != nil && wfTx(mp.verifiedTxes[j].txn) && transaction.wfAttrs(mp.verifiedTxes[j].txn))
-//@ spec wfCount(mp *Pool) bool = len(mp.verifiedMap) == len(mp.verifiedTxes)
+//@ spec wfCount(mp *Pool) bool = forallkeys(mp.verifiedMap, k, has(mp.verifiedMap, k) ==> exists(j, 0, len(mp.verifiedTxes), transaction.txHash(mp.verifiedTxes[j].txn) == k))
 //@ spec wfOracle(mp *Pool) bool = forallkeys(mp.oracleResp, id, has(mp.oracleResp, id) ==> has(mp.verifiedMap, mp.oracleResp[id]))
 //@ spec mapsOK(mp *Pool) bool = mp != nil && mp.fees != nil && mp.verifiedMap != nil && mp.conflicts != nil && mp.oracleResp != nil
 
@@ -108,7 +108,8 @@ package mempool
 //@ ensures[absent] !old(has(mp.verifiedMap, hash)) ==> unchanged(mp.verifiedTxes) && unchanged(mp.verifiedMap) && unchanged(mp.conflicts) && unchanged(mp.oracleResp) && unchanged(mp.fees)
 //@ ensures[present] old(has(mp.verifiedMap, hash)) ==> len(mp.verifiedTxes) == old(len(mp.verifiedTxes)) - 1
 //@ ensures[len] len(mp.verifiedTxes) <= old(len(mp.verifiedTxes))
-//@ ensures[items] wfItems(mp) && wfCount(mp)
+//@ ensures[items] wfItems(mp)
+//@ ensures[count!] wfCount(mp)
 //@ loop 0 invariant (($i == 0 && num == 0) || num == $i - 1) && $i <= len(mp.verifiedTxes)
 
 //@ func (*Pool).Add
